@@ -2,6 +2,9 @@ package checks
 
 import (
 	"fmt"
+	"go/ast"
+	"go/parser"
+	"go/token"
 	"sort"
 	"strconv"
 	"strings"
@@ -37,6 +40,39 @@ func tvRandom(ctx *RunCtx, pkgs []*tv.Package) error {
 		o.CaseDeadlineS, o.QueryTimeoutMs = 120, 20000
 	}
 	return tvRunOpts(ctx, pkgs, o)
+}
+
+// methodRejected: goose reported a conversion error located inside the declaration of method m of
+// type T (the method was refused, so a reference to T__m from another declaration is expected to dangle;
+// goose exits non-zero and writes nothing unless -ignore-errors is given).
+func methodRejected(p *tv.Package, tr *tv.Translation, T, m string) bool {
+	for fname, src := range p.Files {
+		fset := token.NewFileSet()
+		f, err := parser.ParseFile(fset, fname, src, 0)
+		if err != nil {
+			continue
+		}
+		for _, d := range f.Decls {
+			fd, ok := d.(*ast.FuncDecl)
+			if !ok || fd.Recv == nil || len(fd.Recv.List) == 0 || fd.Name.Name != m {
+				continue
+			}
+			rt := fd.Recv.List[0].Type
+			if st, ok := rt.(*ast.StarExpr); ok {
+				rt = st.X
+			}
+			if id, ok := rt.(*ast.Ident); !ok || id.Name != T {
+				continue
+			}
+			from, to := fset.Position(fd.Pos()).Line, fset.Position(fd.End()).Line
+			for _, e := range tr.Errors {
+				if e.File == fname && e.Line >= from && e.Line <= to {
+					return true
+				}
+			}
+		}
+	}
+	return false
 }
 
 // firstCaseLine: the first line of the first case of the file (everything before it is the prelude).
@@ -178,7 +214,7 @@ func tvRunOpts(ctx *RunCtx, pkgs []*tv.Package, o tvOpts) error {
 				// for a type declared in this very file, with no definition of that name anywhere, can
 				// not be provided by any library — the output refers to something that does not exist
 				if i := strings.Index(is.Name, "__"); i > 0 {
-					if _, local := glp.Defs[is.Name[:i]]; local {
+					if _, local := glp.Defs[is.Name[:i]]; local && !methodRejected(p, tr, is.Name[:i], is.Name[i+2:]) {
 						mu.Lock()
 						ctx.addTVViolation(p, nil, "emitted/reference-to-an-undefined-definition", fmt.Sprintf("%s mentions %s, which is defined nowhere", is.In, is.Name), tr, nil)
 						mu.Unlock()
